@@ -366,6 +366,15 @@ func (in *interp) addrOf(fr *frame, e ast.Expr) (value, error) {
 	case *ast.Ident:
 		c := fr.lookup(x.Name)
 		if c == nil {
+			// a package-level array (constant table): immutable after initialisation (see pkgVar)
+			if v, found, err := in.pkgVar(fr, fr.pkg, x.Name, e); found {
+				if err != nil {
+					return nil, err
+				}
+				if a, ok := v.(*arrayVal); ok {
+					return &ptrVal{arr: a}, nil
+				}
+			}
 			return nil, in.unsupported(e, "address of non-local "+x.Name)
 		}
 		if a, ok := c.v.(*arrayVal); ok {
@@ -1032,6 +1041,48 @@ func (in *interp) exec(fr *frame, s ast.Stmt) ([]value, bool, error) {
 				if _, _, err := in.exec(lf, st.Post); err != nil {
 					return nil, false, err
 				}
+			}
+		}
+		return nil, false, nil
+	case *ast.RangeStmt:
+		// for i[, v] := range <array | *array | slice of known length | integer constant>: unrolled
+		n := -1
+		var arr *arrayVal
+		lo := 0
+		if v, err := in.eval(fr, st.X); err == nil {
+			if x, ok := v.(*Val); ok {
+				if c, isC := x.constant(); isC && c.IsInt64() {
+					n = int(c.Int64())
+				}
+			}
+		}
+		if n < 0 {
+			a, l, h, err := in.container(fr, st.X)
+			if err != nil {
+				return nil, false, err
+			}
+			arr, lo, n = a, l, h-l
+		}
+		if n > 256 {
+			return nil, false, in.unsupported(s, "loop bound above 256")
+		}
+		if st.Tok != token.DEFINE && (st.Key != nil || st.Value != nil) {
+			return nil, false, in.unsupported(s, "range loop assigning to existing variables")
+		}
+		for i := 0; i < n; i++ {
+			bf := &frame{pkg: fr.pkg, file: fr.file, vars: map[string]*cell{}, parent: fr}
+			if id, ok := st.Key.(*ast.Ident); ok && id.Name != "_" {
+				bf.vars[id.Name] = &cell{v: in.constVal(big.NewInt(int64(i)))}
+			}
+			if id, ok := st.Value.(*ast.Ident); ok && id.Name != "_" {
+				if arr == nil {
+					return nil, false, in.unsupported(s, "range value over an integer")
+				}
+				bf.vars[id.Name] = &cell{v: arr.elems[lo+i]}
+			}
+			ret, done, err := in.execBlock(bf, st.Body.List)
+			if err != nil || done {
+				return ret, done, err
 			}
 		}
 		return nil, false, nil
